@@ -235,7 +235,7 @@ def run(ctx):
                 (64, (2, 4, 8), 'conv3', None, {'gumbel_softmax': True, 'mode': 'eval'}), (32, (2, 4, 8), 'conv3only', (20, 12, 0), {'gumbel_softmax': True, 'mode': 'eval'}),
                 (64, (2, 4, 8), 'conv3', None, {'mode': 'eval'}), (64, (2, 4, 8), 'res', None, {'disable_shared_quantizers': True, 'temperature': 5.0}),
                 (64, (2, 4, 8), 'conv3', None, {'alpha_grid': 0.5}), (32, (2, 4, 8), 'conv3only', None, {'alpha_grid': 1.0}), (64, (0, 2, 4, 8), 'conv3', None, {'alpha_grid': 0.5, 'mode': 'eval'}),
-                (64, (2, 4, 8), 'conv3', None, {'freeze': True}), (32, (2, 4, 8), 'conv3only', (20, 12, 0), {'freeze': True}), (64, (2, 4, 8), 'res', None, {'freeze': True, 'disable_shared_quantizers': True})]
+                (64, (2, 4, 8), 'conv3', None, {'freeze': True}), (64, (2, 4, 8), 'conv3', (30, 20, 14), {'freeze': True, 'hard_softmax': True}), (32, (2, 4, 8), 'conv3only', (20, 12, 0), {'freeze': True, 'hard_softmax': True}), (32, (2, 4, 8), 'conv3only', (20, 12, 0), {'freeze': True}), (64, (2, 4, 8), 'res', None, {'freeze': True, 'disable_shared_quantizers': True})]
     if not ctx.quick:
         for _ in range(24):
             o = {}
@@ -291,6 +291,8 @@ def run(ctx):
             m(m._input_example)
             after = {n: chan_prec(l) for n, l in layers.items()}
             after_idx = {n: [int(i) for i in l.w_mps_quantizer.alpha.argmax(dim=0)] for n, l in layers.items()}
+            # what the returned model actually EVALUATES: the refinement ends with a forward pass that refreshes the sampled coefficients
+            theta_prec = {n: [int(l.w_mps_quantizer.precision[i]) for i in l.w_mps_quantizer.theta_alpha.argmax(dim=0)] for n, l in layers.items()}
             c1 = float(m.get_cost('ne16'))
             chosen = {}
             for mt in re.finditer(r"\* Layer '([^']+)' cost decreased.*?\n\tprecisions: (\[.*?\])\n\toriginal:\s+(\[.*?\])\n\tnew:\s+(\[.*?\])", buf.getvalue()):
@@ -301,7 +303,8 @@ def run(ctx):
                 fin = [after[n].count(p) for p in ps]
                 rec['layers'][n] = {'precisions_sorted': ps, 'counts_before': init, 'counts_after': fin, 'chosen_by_refinement': chosen.get(n, init), 'table': tbl,
                                     'order': order, 'alpha_before': alpha0[n], 'own_index_after': after_idx[n],
-                                    'demoted_channels': sum(1 for a, b in zip(before[n], after[n]) if b < a)}
+                                    'demoted_channels': sum(1 for a, b in zip(before[n], after[n]) if b < a),
+                                    'counts_evaluated_after': [theta_prec[n].count(p) for p in ps]}
             qids = [id(l.w_mps_quantizer) for l in layers.values()]
             shared = len(set(qids)) < len(qids)
             rec['shared_weight_quantizer'] = shared
@@ -310,6 +313,7 @@ def run(ctx):
             info['layers'] = {n: {k: v for k, v in d.items() if k not in ('table', 'alpha_before', 'own_index_after')} for n, d in rec['layers'].items()}
             oracle(all(d['demoted_channels'] == 0 for d in rec['layers'].values()), 'refine-demotes-channel' + key_sfx, info)
             oracle(all(d['counts_after'] == d['chosen_by_refinement'] for d in rec['layers'].values()), 'refine-counts-differ-from-chosen' + key_sfx, info)
+            oracle(all(d['counts_evaluated_after'] == d['counts_after'] for d in rec['layers'].values()), 'refined-model-evaluates-other-counts-than-it-holds' + key_sfx, info)
             oracle(math.isfinite(c1) and c1 <= c0 * (1 + 1e-6), 'refine-raises-cost' + key_sfx, info)
         except Exception as e:
             import traceback
